@@ -48,7 +48,7 @@ def check(run):
         conc += [program(list(s), p, "dfs", n=cap, fine=1, preempt=0, epi=1 - (i + run.seed) % 2) for i, (s, p) in enumerate(progs)]
     # one call racing a two-call goroutine (1 x 2): every <= 2-preemption schedule, from a seeded sample of layouts x call triples
     triples = [(a, b, c) for a in ops for b in ops for c in ops]
-    n12 = 400 if q else len(triples) * len(lay)
+    n12 = 300 if q else len(triples) * len(lay)
     if q:
         for i in range(n12):
             a, b, c = run.rng.choice(triples)
